@@ -243,6 +243,107 @@ def run_case(case, emit):
         emit(rec)
 
 
+def make_scalar_case(rng):
+    """scripts with scalar statements read by several later statements, inside clauses and at expression level, and
+    external scalars (scalar_values) mixed with datasets whose first use is the same statement"""
+    ni = rng.randint(1, 3)
+    nsc = rng.randint(1, 2)
+    stmts = []
+    for j in range(nsc):
+        stmts.append({"k": "scalar", "name": f"sc{j + 1}", "val": rng.choice([2, 3, 5, 7]), "pers": rng.random() < 0.4})
+    ext = rng.random() < 0.5
+    scal_names = [s["name"] for s in stmts] + (["sc_in"] if ext else [])
+    nds = rng.randint(2, 4)
+    for j in range(nds):
+        kind = rng.choice(["clause", "clause", "expr-left", "expr-right", "expr2"])
+        stmts.append({"k": kind, "name": f"S{j + 1}", "in": f"IN_{rng.randint(1, ni)}", "in2": f"IN_{rng.randint(1, ni)}",
+                      "sc": rng.choice(scal_names), "pers": rng.random() < 0.6})
+    return {"scalar_family": True, "ni": ni, "stmts": stmts, "ext": ext, "ext_val": rng.choice([2, 4]), "rop": rng.random() < 0.5,
+            "perm": rng.randrange(1 << 30)}
+
+
+def run_scalar_case(case, emit):
+    from vf import eng
+    eng.install_conn_proxy()
+    ni = case["ni"]
+    texts, readers, model, known = [], {}, {}, set()
+    ins = {f"IN_{i + 1}": {k: v for k, v in input_rows(i)} for i in range(ni)}
+    scal = {"sc_in": case["ext_val"]} if case["ext"] else {}
+    for s in case["stmts"]:
+        arrow = "<-" if s["pers"] else ":="
+        nm = s["name"]
+        known.add(nm)
+        if s["k"] == "scalar":
+            texts.append(f"{nm} {arrow} {s['val']} + 0;")
+            scal[nm] = s["val"]
+            readers[nm] = set()
+            continue
+        sc, a, b = s["sc"], s["in"], s["in2"]
+        if s["k"] == "clause":
+            texts.append(f"{nm} {arrow} {a}[calc Me_1 := Me_1 + {sc}];")
+            model[nm] = {k: v + scal[sc] for k, v in ins[a].items()}
+            readers[nm] = {a, sc}
+        elif s["k"] == "expr-left":
+            texts.append(f"{nm} {arrow} {sc} * {a};")
+            model[nm] = {k: v * scal[sc] for k, v in ins[a].items()}
+            readers[nm] = {a, sc}
+        elif s["k"] == "expr-right":
+            texts.append(f"{nm} {arrow} {a} * {sc};")
+            model[nm] = {k: v * scal[sc] for k, v in ins[a].items()}
+            readers[nm] = {a, sc}
+        else:
+            texts.append(f"{nm} {arrow} {sc} * {a} + {b};")
+            model[nm] = {k: v * scal[sc] + ins[b][k] for k, v in ins[a].items()}
+            readers[nm] = {a, b, sc}
+    for r in readers.values():
+        r.discard("sc_in")          # external scalars are inlined by the transpiler, never loaded as tables
+    order = list(range(len(texts)))
+    random.Random(case["perm"]).shuffle(order)
+    script = "\n".join(texts[i] for i in order)
+    st = eng.structures(*[eng.mkds(f"IN_{i + 1}", COMPS) for i in range(ni)], scalars=[("sc_in", "Integer")] if case["ext"] else None)
+    dfs = {f"IN_{i + 1}": eng.mkdf(["Id_1", "Me_1"], input_rows(i)) for i in range(ni)}
+    kw = {"scalar_values": {"sc_in": case["ext_val"]}} if case["ext"] else {}
+    eng.PROXY.reset()
+    status, res = eng.call(eng.run, script, st, dfs, return_only_persistent=case["rop"], **kw)
+    log = list(eng.PROXY["log"])
+    emit({"v": "ctr", "ctr": {"db_events": len(log), "proxy_entered": 1 if log else 0}})
+    kinds = "+".join(sorted({s["k"] for s in case["stmts"]}))
+    nread = max([sum(1 for s in case["stmts"] if s.get("sc") == n) for n in scal] or [0])
+    bucket = f"scalars/{kinds}/ext={case['ext']}/max_readers={min(nread, 3)}/rop={case['rop']}/pers_scalar={any(s['k'] == 'scalar' and s['pers'] for s in case['stmts'])}"
+    pers_clause = any(s["k"] == "clause" and next((x["pers"] for x in case["stmts"] if x["name"] == s["sc"]), False) for s in case["stmts"])
+    if status == "exc":
+        name, code, _ = eng.exc_info(res)
+        emit({"v": "viol", "b": bucket, "mech": f"scalar-schedule/valid-script-raises/{name}/persistent-scalar-read-in-clause={pers_clause}",
+              "what": f"{script!r} raised {name}: {str(res)[:240]}", "case": case})
+        return
+    known |= {f"IN_{i + 1}" for i in range(ni)}
+    problems, stats = check_log(log, known, readers)
+    want = {s["name"] for s in case["stmts"] if (not case["rop"]) or s["pers"]}
+    if set(res) != want:
+        problems.append(("returned-names", f"returned {sorted(res)} expected {sorted(want)}"))
+    for s in case["stmts"]:
+        nm = s["name"]
+        nd = len(stats["dropped"].get(nm, []))
+        if nm not in want and nd != 1:
+            problems.append(("intermediate-not-released-exactly-once", f"{nm} dropped {nd} times"))
+        if nd > 1:
+            problems.append(("released-more-than-once", nm))
+    for nm in want & set(res):
+        obj = res[nm]
+        if nm in model:
+            cols, rows, nk = eng.ds_rows(obj)
+            d = eng.same_rowset(rows, [(k, float(v)) for k, v in model[nm].items()], 1)
+            if d:
+                problems.append(("wrong-values", f"{nm}: {d}"))
+        elif not eng.close(eng.norm(obj.value), scal[nm]):
+            problems.append(("wrong-values", f"scalar {nm} = {obj.value!r} expected {scal[nm]}"))
+    if problems:
+        kinds_p = sorted({p[0] for p in problems})
+        emit({"v": "viol", "b": bucket, "mech": "scalar-schedule/" + "+".join(kinds_p[:3]), "what": f"{script!r} rop={case['rop']}: {problems[:4]}", "case": case})
+    else:
+        emit({"v": "held", "b": bucket, "sample": {"script": script, "rop": case["rop"]}})
+
+
 def run_corpus_case(c, emit):
     """Event-log replay for one corpus script (readers from the SQL text; results are not modelled here)."""
     from vf import corpus, eng
@@ -291,6 +392,9 @@ def run_corpus_case(c, emit):
 def run_shard(spec, emit):
     from vf import corpus, eng
     bud = eng.Budget(spec.get("budget_s", 150 if spec["tier"] == "quick" else 2400))
+    srng = random.Random(f"C13s-{spec['seed']}-{spec['shard']}")
+    for _ in range(12 if spec["tier"] == "quick" else 400):
+        run_scalar_case(make_scalar_case(srng), emit)
     for case in case_iter(spec["tier"], spec["seed"], spec["shard"], spec["nshards"]):
         if not bud.ok():
             emit({"v": "inc", "why": "graph enumeration cut by wall-clock budget"})
@@ -309,5 +413,7 @@ def run_shard(spec, emit):
 def replay(case, emit):
     if "corpus" in case:
         run_corpus_case(case["corpus"], emit)
+    elif case.get("scalar_family"):
+        run_scalar_case(case, emit)
     else:
         run_case(case, emit)
